@@ -21,7 +21,7 @@ import sympy  # noqa: E402
 from scipy import sparse  # noqa: E402
 
 from pymablock import block_diagonalize  # noqa: E402
-from pymablock.series import zero, one  # noqa: E402
+from pymablock.series import zero, one, BlockSeries  # noqa: E402
 
 failures = []
 cases = 0
@@ -273,6 +273,41 @@ def section_herm():
                         if np.abs(got - want).max() > 1e-10 * size:
                             fail("herm", f"{nm} for a perturbation scaled by 2^-{k} is not 2^-{k}n times the unscaled result (error not proportional to the size of the terms)",
                                  layout=(E, sub, fully), fmt=fmt, order=o, err=float(np.abs(got - want).max()), size=float(size))
+    # symbolic H_0 whose degenerate levels are written differently (Integer 1 and Float 1.0): mask and solver must agree on what is degenerate
+    cases += 1
+    try:
+        xs = sympy.Symbol("x", real=True)
+        H1s = sympy.Matrix([[0, 2, 1], [2, 0, 1], [1, 1, 0]])
+        outs = []
+        for h0 in (sympy.diag(1, sympy.Float(1.0), 3), sympy.diag(1, 1, 3)):
+            Hs, Us, _ = block_diagonalize(h0 + xs * H1s, symbols=[xs])
+            outs.append([np.array(sympy.Matrix(Hs[0, 0, k]).subs(xs, 1).tolist(), dtype=complex) if Hs[0, 0, k] is not zero else np.zeros((3, 3)) for k in range(3)])
+        for k in range(3):
+            if np.abs(outs[0][k] - outs[1][k]).max() > 1e-9:
+                fail("herm", "symbolic H_0 = diag(1, 1.0, 3): H_tilde differs from the result for diag(1, 1, 3) (the two spellings of the degenerate level are treated differently by mask and solver)",
+                     order=k, err=float(np.abs(outs[0][k] - outs[1][k]).max()))
+    except Exception as e:
+        fail("herm", "symbolic H_0 with Integer / Float spelling of a degenerate level raised", error=repr(e)[:300])
+    # pre-blocked input (nested block lists) whose blocks are legacy scipy.sparse MATRIX objects at every order (no mixing with dense values, see F-SPM),
+    # with and without full diagonalization: the masks must be applied element-wise whatever the container class
+    for conv_name, conv in (("csr_matrix", sparse.csr_matrix), ("coo_matrix", sparse.coo_matrix), ("csr_array", sparse.csr_array)):
+        for fully in ((), (0,), (0, 1)):
+            cases += 1
+            pb = Problem([0.0, 0.0, 1.5, 3.0, 4.0, 6.5], [0, 0, 0, 1, 1, 1], seed=123)
+            try:
+                blocks = lambda M: [[conv(np.asarray(M)[np.ix_(pb.idx[i], pb.idx[j])]) for j in range(2)] for i in range(2)]  # noqa: E731
+                ham = [blocks(pb.H_order((0,)))] + [blocks(pb.H_order((1,)))]
+                ham[0][0][1] = ham[0][1][0] = zero
+                kw = {"fully_diagonalize": fully} if fully else {}
+                Ht, U, Ui = block_diagonalize(ham, **kw)
+                refH, refU, _ = block_diagonalize([pb.H_order((0,)), pb.H_order((1,))], subspace_indices=pb.sub, **kw)
+                for o in range(4):
+                    for nm, a, b in (("H_tilde", Ht, refH), ("U", U, refU)):
+                        if np.abs(pb.assemble(a, (o,)) - pb.assemble(b, (o,))).max() > 1e-9:
+                            fail("herm", f"pre-blocked input with {conv_name} blocks: {nm} differs from the dense computation", order=o, fully=fully,
+                                 err=float(np.abs(pb.assemble(a, (o,)) - pb.assemble(b, (o,))).max()))
+            except Exception as e:
+                fail("herm", f"pre-blocked input with {conv_name} blocks raised", fully=fully, error=repr(e)[:300])
     # chain of near-degeneracies with a large tolerance (kept pattern not transitive)
     pb = Problem([0.0, 0.1, 0.2, 1.0, 2.0], [0, 0, 0, 0, 0], seed=3)
     check_problem("herm", pb, 3, fully=(0,), atol=0.15, label="chain/atol0.15")
@@ -398,6 +433,51 @@ def section_spectrum():
         bad = {k: v for k, v in diff.items() if k[1] <= N and abs(complex(v)) > 1e-7}
         if bad:
             fail("spectrum", "characteristic polynomial of the truncated H_tilde differs from that of H below order N+1", layout=li, coefficients=list(bad.items())[:3])
+
+
+def section_spectrum_symbolic():
+    """C04 for symbolic input with TWO parameters and a non-separable dependence (x y term): the characteristic polynomial of the truncated H_tilde(x, y) agrees with
+    that of H(x, y) in all coefficients of total order <= N (exact rational arithmetic; the oracle never looks at U)."""
+    global cases
+    x, y, t = sympy.symbols("x y t", real=True)
+    lamv = sympy.Symbol("lam")
+    for li, (E, sub, fully) in enumerate([([0, 1, 3], [0, 0, 0], ()), ([0, 2, 5], [0, 1, 1], ()), ([0, 0, 3], [0, 0, 1], (0,))]):
+        cases += 1
+        n = len(E)
+        rng = np.random.default_rng(130 + li)
+
+        def rmat():
+            m = rng.integers(-2, 3, size=(n, n))
+            return sympy.Matrix((m + m.T).tolist()) / 2
+        A_, B_, C_ = rmat(), rmat(), rmat()
+        H = sympy.diag(*E) + x * A_ + y * B_ + x * y * C_
+        N = 3
+        kw = {"fully_diagonalize": fully} if fully else {}
+        try:
+            Ht, U, Ud = block_diagonalize(H, symbols=[x, y], subspace_indices=sub, **kw)
+            nb = max(sub) + 1
+            idx = [[a for a in range(n) if sub[a] == b] for b in range(nb)]
+            Heff = sympy.zeros(n, n)
+            for o in orders_upto(2, N):
+                blkm = sympy.zeros(n, n)
+                for i in range(nb):
+                    v = Ht[(i, i) + tuple(o)]
+                    if v is zero:
+                        continue
+                    v = sympy.Matrix(v)
+                    for a, ra in enumerate(idx[i]):
+                        for b, rb in enumerate(idx[i]):
+                            blkm[ra, rb] = v[a, b]
+                Heff += blkm * (lamv ** sum(o))          # symbolic terms already carry their monomial x^a y^b
+            p_eff = sympy.Poly((t * sympy.eye(n) - Heff).det(method="berkowitz").expand(), t, lamv, x, y)
+            p_ex = sympy.Poly((t * sympy.eye(n) - H.subs({x: lamv * x, y: lamv * y}, simultaneous=True)).det(method="berkowitz").expand(), t, lamv, x, y)
+            diff = (p_eff - p_ex).as_dict()
+            bad = {k: v for k, v in diff.items() if k[1] <= N and sympy.simplify(v) != 0}
+            if bad:
+                fail("spectrum_symbolic", "symbolic two-parameter input: characteristic polynomial of the truncated H_tilde differs from that of H(x, y) below total order N+1", layout=li,
+                     coefficients=[(k, str(v)) for k, v in list(bad.items())[:3]])
+        except Exception as e:
+            fail("spectrum_symbolic", "symbolic two-parameter problem raised", layout=li, error=repr(e)[:300])
 
 
 def section_spectrum_sparse():
@@ -670,6 +750,31 @@ def section_solvers():
         warned = any(issubclass(x.category, RuntimeWarning) for x in wlist)
         if np.abs(resid).max() > 1e-3 * max(1.0, np.abs(Y).max()) and not warned:
             fail("solvers", "KPM solver: residual of E V - V H = Y P far above the requested accuracy and no convergence warning", aux=naux, err=float(np.abs(resid).max()))
+    # KPM solver with every option left to its default and TWO explicit subspaces (explicit-explicit solves go through the diagonal solver)
+    cases += 1
+    try:
+        vB = v[:, 2:4]
+        with warnings.catch_warnings(record=True) as wlist:
+            warnings.simplefilter("always")
+            ss = solve_sylvester_KPM(H, (vA, vB))
+            Yab = rng.normal(size=(2, 2))
+            Vab = np.asarray(ss(Yab, (0, 1)))
+        d = w[:2].reshape(-1, 1) - w[2:4]
+        if np.abs(d * Vab - Yab).max() > 1e-8:
+            fail("solvers", "KPM solver with default options: explicit-explicit block does not solve E_a V - V E_b = Y", err=float(np.abs(d * Vab - Yab).max()))
+    except Exception as e:
+        fail("solvers", "KPM solver with default options raised on an explicit-explicit block", error=repr(e)[:300])
+    # a moment budget below the first batch of moments: a solution is returned together with a convergence warning
+    cases += 1
+    try:
+        from pymablock.kpm import greens_function as kpm_gf
+        with warnings.catch_warnings(record=True) as wlist:
+            warnings.simplefilter("always")
+            x = kpm_gf(np.diag([0.1, 0.5, -0.3]), 0.7, np.ones(3), atol=1e-12, max_moments=5)
+        if not any(issubclass(q.category, RuntimeWarning) for q in wlist) or not np.all(np.isfinite(np.asarray(x, dtype=complex))):
+            fail("solvers", "kpm.greens_function with a small moment budget: no convergence warning or non-finite result")
+    except Exception as e:
+        fail("solvers", "kpm.greens_function with max_moments < 10 raised instead of returning with a convergence warning", error=repr(e)[:200])
 
 
 def section_illposed():
@@ -779,6 +884,52 @@ def section_nh_finding():
     check_problem("nh_finding", pb, 2, label="F-NH witness: H0=diag(0,1,2.5,4), two blocks, hermitian=False")
 
 
+def section_spm_finding():
+    """Witness of known finding F-SPM (C14): legacy scipy.sparse *matrix* values (csr_matrix ...) mixed with dense values of another order in a block-shaped
+    BlockSeries: csr_matrix + ndarray is a numpy.matrix, for which `*` in the mask closures (and in the dense solver branch) is a matrix product."""
+    global cases
+    cases += 1
+    rng = np.random.default_rng(0)
+    n = 4
+    H0 = np.diag([0.0, 1.0, 3.0, 4.5])
+    M = rng.normal(size=(n, n))
+    H1 = (M + M.T) / 4
+    M2 = rng.normal(size=(n, n))
+    H2 = (M2 + M2.T) / 4
+
+    def run(conv):
+        H = BlockSeries(data={(0, 0, 0): conv(H0), (0, 0, 1): conv(H1), (0, 0, 2): H2}, shape=(1, 1), n_infinite=1)
+        Ht, U, Ud = block_diagonalize(H)
+        return [dense(Ht[0, 0, k], (n, n)) for k in range(4)]
+    ref = run(np.array)
+    got = run(sparse.csr_matrix)
+    err = max(float(np.abs(np.asarray(g) - r).max()) for g, r in zip(got, ref))
+    if err > 1e-9:
+        fail("spm_finding", "csr_matrix values mixed with a dense term: H_tilde differs from the result for ndarray / csr_array values", err=err)
+
+
+def section_tol_finding():
+    """Witness of known finding F-TOL (C06): implicit mode, direct solver, solver option eigenvalue_atol larger than the spacing of two explicit levels that
+    fully_diagonalize (with the default atol) asks to separate: the mask eliminates the pair, the explicit part of the solver (using eigenvalue_atol) does not."""
+    global cases
+    cases += 1
+    rng = np.random.default_rng(1)
+    n = 6
+    H0 = np.diag([0.0, 1e-8, 1.0, 2.0, 3.0, 4.0])
+    M = rng.normal(size=(n, n))
+    H1 = (M + M.T) / 4
+    V = np.eye(n)[:, :2]
+    Ht, U, Ud = block_diagonalize([sparse.csr_array(H0), sparse.csr_array(H1)], subspace_eigenvectors=[V], fully_diagonalize=[0], solver_options={"eigenvalue_atol": 1e-6})
+    Hf, Uf, _ = block_diagonalize([H0, H1], subspace_eigenvectors=[V, np.eye(n)[:, 2:]], fully_diagonalize=[0])
+    a = dense(Ht[0, 0, 1], (2, 2))
+    b = dense(Hf[0, 0, 1], (2, 2))
+    u = dense(U[0, 0, 1], (2, 2))
+    uf = dense(Uf[0, 0, 1], (2, 2))
+    if np.abs(u - uf).max() > 1e-6 * max(1.0, np.abs(uf).max()) or np.abs(a - b).max() > 1e-9:
+        fail("tol_finding", "implicit mode with eigenvalue_atol = 1e-6: the coupling between two explicit levels 1e-8 apart is dropped from H_tilde but not eliminated by U",
+             U_implicit=float(np.abs(u).max()), U_explicit=float(np.abs(uf).max()))
+
+
 def section_projector():
     """C17: ComplementProjector against the dense matrix 1 - R L^H under every operator operation."""
     global cases
@@ -839,7 +990,7 @@ if __name__ == "__main__":
             fn = globals().get("section_" + name)
             if fn is None:
                 continue
-            if OFF and name in ("nh_finding", "projector", "spectrum", "illposed"):
+            if OFF and name in ("nh_finding", "spm_finding", "tol_finding", "projector", "spectrum", "spectrum_symbolic", "illposed"):
                 continue   # deterministic sections
             try:
                 fn()
